@@ -556,6 +556,15 @@ fn gen_prog(t: &mut Tape) -> Case {
         }
         _ => (render(&SynGen::new(t, SynCfg::default()).program(), &spelling, OPTS).text, random_stdin(t), "grammar"),
     };
+    // one offered input in eight starts with something a tool might be tempted to treat specially: a byte-order mark,
+    // a zero-width space, a NUL, a control-Z, a lone CR, a line separator
+    let mut stdin = stdin;
+    if !stdin.is_empty() && t.chance(1, 8) {
+        let lead = *t.choose(&["\u{feff}", "\u{feff}\u{feff}", "\u{200b}", "\0", "\u{1a}", "\r", "\u{2028}", "\u{fffe}", "\u{feff}\n"]);
+        let mut v = lead.as_bytes().to_vec();
+        v.extend_from_slice(&stdin);
+        stdin = v;
+    }
     Case::Prog { src, stdin, origin: origin.into() }
 }
 
